@@ -5,10 +5,12 @@ CHECK = {
     "packages": ["./actor"],
     "harness": ["actor/zz_verif_c10.go"],
     "entries": [
-        {"fn": P + "vC10_sequence", "replay": "model-only"},
+        {"fn": P + "vC10_step", "replay": "model-only", "cases": {"terminating": [0, 1, 2, 3]}},
     ],
-    "opts": {"unwind": 8, "substitute": SUB},
+    "opts": {"unwind": 8, "feas_from_iter": 4, "substitute": SUB, "map_range": "per_entry", "map_dedup": True},
     "stop": list(SUB.keys()),
-    "explanation": "TODO",
-    "bounds": {},
+    "explanation": 'Real code executed symbolically: tree.addRootNode/addNode/addWatcher/removeWatcher/watchers/watchees, PID.Watch/UnWatch (local arm), PID.freeWatchers, PID.IsRunning/setState, NewTerminated, remoteWatchRegistry.watchersFor (empty). State: root guardian with three children in an ARBITRARY watch relation (12 symbolic booleans, installed through the real addWatcher/removeWatcher), then one arbitrary Watch or UnWatch between two distinct actors (so operation sequences of any length are covered inductively), every actor in an arbitrary liveness state (running / stopped / suspended / stopping / passivating), then the chosen actor (one job per actor) runs freeWatchers, the notification step of doStop that every termination path goes through; it is run a second time to model a second termination path. Asserted: the tree relation equals the model in both directions; a running watcher in the relation receives exactly one Terminated naming the dead actor, a non-watcher (never watched or unwatched before) none, a non-running watcher none; nothing else is sent; notified pairs leave the relation; the second run notifies nobody. Substitutions: (*PID).Tell -> recorder; (*PID).Equals (strings.EqualFold on the two IDs) -> exact ID comparison (harness IDs are distinct lower-case constants).',
+    "bounds": {"actors": "root + 3 children", "watch relation": "any subset of the 12 ordered pairs", "operations": "1 arbitrary Watch/UnWatch from an arbitrary relation (inductive step)", "terminating actor": "each of the 4 (case split)"},
+    "assumptions": ["remote watchers and the Mode-C extension (UnWatch or Watch racing freeWatchers) are outside the claim: a Watch that lands after freeWatchers took its snapshot is never notified (observation, not asserted)",
+                    "map iteration order = insertion order"],
 }
